@@ -550,6 +550,19 @@ def rule_identity(ctx: Ctx):
                 isinstance(last, ast.Constant) and isinstance(last.value, str) and last.value.endswith((")", "]"))
         rep.check(ok, "C08.identity", uk.loc(), "the key of a binary sub-expression is bracketed, so differently nested expressions get different keys "
                   "(`a and (b or c)` vs `(a and b) or c`)", uk.key, f"return {show(v)}")
+    bc = ctx.fn("build_constant")
+    n_k = 0
+    for p in ctx.paths(bc, inline=None, exc_edges="none"):
+        for e in p.of("store"):
+            if e.x.get("attr") == "unique_key":
+                n_k += 1
+                v = xshow(e.x["value"], p.events)
+                prm = bc.params[0]
+                ok = v in (f"repr({prm})", f"f'{{{prm}!r}}'") or (v.startswith("f'") and f"{{{prm}!r}}" in v)
+                rep.check(ok, "C08.identity", e.loc(), "the key of a literal tells values of different types apart (`'1'` and `1`, `'None'` and "
+                          "`None`): it is the literal's repr, not its str - otherwise two different guards of one transition get the same key "
+                          "and the second is dropped as a duplicate", bc.key, f"unique_key = {v}")
+    rep.floor("C08.identity", "key of a literal", n_k, 1)
     cn = ctx.fn("custom_not")
     for n_ in own_nodes(cn.node):
         if isinstance(n_, ast.Assign) and any(show(t).endswith(".unique_key") for t in n_.targets):
